@@ -50,10 +50,11 @@ struct SimIO {
 };
 inline SimIO& simIO() { static SimIO* io = new (::malloc(sizeof(SimIO))) SimIO(); return *io; }
 static char simStdoutTag;   // address used as the stdout handle
-inline PlatformSpecificFile simFOpen(const char* name, const char*) {
+inline PlatformSpecificFile simFOpen(const char* name, const char* mode) {
     SimIO& io = simIO();
     SimFile* f = new (::malloc(sizeof(SimFile))) SimFile();
     f->name = name; f->open = true; f->opens = 1; f->openSeq = ++io.seq;
+    if (mode && mode[0] == 'a') for (size_t i = io.files.size(); i-- > 0;) if (io.files[i]->name == f->name) { f->data = io.files[i]->data; break; }   // append mode: the file keeps what an earlier open of the same name left
     io.files.push_back(f);
     return (PlatformSpecificFile)f;
 }
